@@ -228,6 +228,24 @@ pub fn dispatch(k: &str, t: &[&str]) -> Option<String> {
             let strs = if out.is_empty() { "-".to_string() } else { out.iter().map(|s| if s.is_empty() { "_".to_string() } else { hex(s.as_bytes()) }).collect::<Vec<_>>().join(",") };
             Some(format!("{} {}", if res.is_err() { "err" } else { "ok" }, strs))
         }
+        "op_unpack_strings" => {
+            // strings (hex, "_" = empty, "-" = none), batch_size, rounds: init + execute(streaming) x rounds, output batch after each
+            let strs: Vec<String> = if t[0] == "-" { vec![] } else { t[0].split(',').map(|h| unsafe { String::from_utf8_unchecked(if h == "_" { vec![] } else { unhex(h) }) }).collect() };
+            let packed = crate::stringpack::PackedStrings::from_iterator(strs.iter().map(|s| s.as_str())).into_vec();
+            let bs: usize = num(t[1]);
+            let rounds: usize = num(t[2]);
+            let mut sp = Scratchpad::new(3, HashMap::new());
+            sp.set(br::<u8>(0), packed);
+            let mut op = unpack_strings::UnpackStrings { packed: br(0), unpacked: br(1), iterator: None, has_more: true };
+            op.init(0, bs, &mut sp);
+            let mut batches = vec![];
+            for _ in 0..rounds {
+                op.execute(true, &mut sp).unwrap();
+                let out = sp.get(br::<&str>(1));
+                batches.push(if out.is_empty() { "-".to_string() } else { out.iter().map(|s| if s.is_empty() { "_".to_string() } else { hex(s.as_bytes()) }).collect::<Vec<_>>().join(",") });
+            }
+            Some(format!("{} {}", op.has_more(), batches.join("|")))
+        }
         "op_inverse_dict_lookup" => {
             let mut ips = crate::stringpack::IndexedPackedStrings::default();
             for h in t[0].split(',') { ips.push(unsafe { std::str::from_utf8_unchecked(&unhex(h)) }); }
